@@ -57,7 +57,7 @@ def worldExecOnce : Nat → Nat → Int → World → ExecResult
     | some slot =>
       let env : Env PyCtx World :=
         { chart := slot.chart, E := pyEvaluator, ignoreContract := slot.ignoreContract,
-          deliver := fun l m rs => worldDeliver fuel j l m rs }
+          deliver := fun l m time w => worldDeliver fuel j l m time w }
       let (r, rs) := executeOnce env clock { st := slot.st, world := w, eff := [] }
       { outcome := r, world := rs.world.modifySlot j (fun _ => rs.st), eff := rs.eff }
 
@@ -71,41 +71,42 @@ def worldExecAll : Nat → Nat → Int → World → Except Err Unit × World
     | .ok none => (.ok (), r.world)
     | .ok (some _) => worldExecAll fuel j clock r.world
 
-/-- the listener with id `l`, attached to interpreter `i` (whose state is in flight in `rs.st`) -/
-def worldDeliver : Nat → Nat → Nat → Event → RS PyCtx World → Except Err Unit × RS PyCtx World
-  | fuel, i, l, m, rs =>
-    match rs.world.listeners[l]? with
-    | none => (.error (.listener l), rs)
-    | some (.recorder k) => (.ok (), { rs with world := rs.world.record k m })
+/-- the listener with id `l`, attached to interpreter `i` (in flight: its slot in `w` is stale),
+    called with meta-event `m` while `i`'s step time is `time` -/
+def worldDeliver : Nat → Nat → Nat → Event → Int → World → Except Err Unit × World × List Event
+  | fuel, i, l, m, time, w =>
+    match w.listeners[l]? with
+    | none => (.error (.listener l), w, [])
+    | some (.recorder k) => (.ok (), w.record k m, [])
     | some (.bindCallback k) =>
       if m.name == "event sent" then
         match assocGet "event" m.data with
-        | some (.ev n d) => (.ok (), { rs with world := rs.world.record k { name := n, data := d } })
-        | _ => (.error (.listener l), rs)
-      else (.ok (), rs)
+        | some (.ev n d) => (.ok (), w.record k { name := n, data := d }, [])
+        | _ => (.error (.listener l), w, [])
+      else (.ok (), w, [])
     | some (.bindInterp j) =>
       if m.name == "event sent" then
         match assocGet "event" m.data with
         | some (.ev n d) =>
           let e : Event := { name := n, data := d }
-          if j == i then (.ok (), { rs with st := extQueue e rs.st })
-          else (.ok (), { rs with world := rs.world.modifySlot j (extQueue e) })
-        | _ => (.error (.listener l), rs)
-      else (.ok (), rs)
+          if j == i then (.ok (), w, [e])
+          else (.ok (), w.modifySlot j (extQueue e), [])
+        | _ => (.error (.listener l), w, [])
+      else (.ok (), w, [])
     | some (.property j) =>
-      let w1 := rs.world.modifySlot j (extQueue m)
+      let w1 := w.modifySlot j (extQueue m)
       match fuel with
-      | 0 => (.error .fuel, { rs with world := w1 })
+      | 0 => (.error .fuel, w1, [])
       | fuel'+1 =>
-        let (r, w2) := worldExecAll fuel' j rs.st.time w1
+        let (r, w2) := worldExecAll fuel' j time w1
         match r with
-        | .error e => (.error e, { rs with world := w2 })
+        | .error e => (.error e, w2, [])
         | .ok () =>
           let fin := match w2.slots[j]? with
             | some s => s.st.initialized && s.st.config.isEmpty
             | none => false
-          if fin then (.error (.propertyFailed l), { rs with world := w2 })
-          else (.ok (), { rs with world := w2 })
+          if fin then (.error (.propertyFailed l), w2, [])
+          else (.ok (), w2, [])
 end
 
 /-- `Interpreter(chart, initial_context=ctx0, ignore_contract=…)` with a clock showing `time0` -/
